@@ -185,9 +185,86 @@ func computeGates0(c *Ctx, s GateSpec) (*apo.FnAnalysis, []apo.Gate, int, error)
 	if err != nil {
 		return nil, nil, 0, err
 	}
+	// a sink that moved into a stage helper (a long function turned into a driver calling unexported
+	// stages): the call of the helper is the sink, and the helper's own conditions on it count too
+	type inner struct {
+		call ssa.CallInstruction
+		h    *ssa.Function
+	}
+	var inners []inner
+	if sink != nil && s.Sink != "" {
+		direct := sink
+		helperHasSink := func(h *ssa.Function) bool {
+			hs, err := ParseSink(p, h, s.Sink)
+			if err != nil || hs == nil {
+				return false
+			}
+			for _, b := range h.Blocks {
+				for _, in := range b.Instrs {
+					if hs(in) {
+						return true
+					}
+				}
+			}
+			return false
+		}
+		memo := map[*ssa.Function]bool{}
+		sink = func(in ssa.Instruction) bool {
+			if direct(in) {
+				return true
+			}
+			ci, ok := in.(ssa.CallInstruction)
+			if !ok || ci.Common().IsInvoke() {
+				return false
+			}
+			h := ci.Common().StaticCallee()
+			if h == nil || h == fn || !apo.Inlinable(h) {
+				return false
+			}
+			v, ok := memo[h]
+			if !ok {
+				v = helperHasSink(h)
+				memo[h] = v
+			}
+			return v
+		}
+		for _, b := range fn.Blocks {
+			for _, in := range b.Instrs {
+				if !direct(in) && sink(in) {
+					inners = append(inners, inner{in.(ssa.CallInstruction), in.(ssa.CallInstruction).Common().StaticCallee()})
+				}
+			}
+		}
+	}
 	a := apo.Analyze(fn, apo.AcceptSpec{NoRet: s.NoRet, Sink: sink, Block: block})
 	a.Deps = apo.NewDepAnalysis(fn, c.Sum[cfg].Summary)
 	gates := a.Gates()
+	for _, in := range inners {
+		hs, _ := ParseSink(p, in.h, s.Sink)
+		ha := apo.Analyze(in.h, apo.AcceptSpec{NoRet: true, Sink: hs})
+		var args []string
+		for _, arg := range in.call.Common().Args {
+			args = append(args, a.D.Val(arg))
+		}
+		have := map[string]bool{}
+		for _, g := range gates {
+			have[fmt.Sprintf("%s|%v", g.Cond, g.FailWhen)] = true
+		}
+		for _, hg := range ha.Gates() {
+			hg.Cond = apo.SubstParams(hg.Cond, args)
+			hg.Pos = in.call.Pos()
+			hg.MustPass = hg.MustPass && len(inners) == 1 && a.AcceptCount() == 1
+			if !have[fmt.Sprintf("%s|%v", hg.Cond, hg.FailWhen)] {
+				gates = append(gates, hg)
+			}
+		}
+	}
+	sort.SliceStable(gates, func(i, j int) bool {
+		if gates[i].Cond != gates[j].Cond {
+			return gates[i].Cond < gates[j].Cond
+		}
+		return !gates[i].FailWhen && gates[j].FailWhen
+	})
 	return a, gates, a.AcceptCount(), nil
 }
 
